@@ -564,7 +564,9 @@ class EndpointLookupInterface(ThingWithCommonRD, ObservableResource):
                 if search_value is not None and search_value.endswith("*"):
 
                     def matches(x, start=search_value[:-1]):
-                        return x.startswith(start)
+                        # A parameter or attribute without a value has no
+                        # prefix
+                        return x is not None and x.startswith(start)
                 else:
 
                     def matches(x, search_value=search_value):
@@ -573,7 +575,10 @@ class EndpointLookupInterface(ThingWithCommonRD, ObservableResource):
                 if search_key in ("if", "rt"):
 
                     def matches(x, original_matches=matches):
-                        return any(original_matches(v) for v in x.split())
+                        # (a valueless rt / if attribute lists no values)
+                        return x is not None and any(
+                            original_matches(v) for v in x.split()
+                        )
 
                 # Lists rather than generators: a generator would only be
                 # evaluated after search_key and matches have moved on to
@@ -627,7 +632,9 @@ class ResourceLookupInterface(ThingWithCommonRD, ObservableResource):
                 if search_value is not None and search_value.endswith("*"):
 
                     def matches(x, start=search_value[:-1]):
-                        return x.startswith(start)
+                        # A parameter or attribute without a value has no
+                        # prefix
+                        return x is not None and x.startswith(start)
                 else:
 
                     def matches(x, search_value=search_value):
@@ -636,7 +643,10 @@ class ResourceLookupInterface(ThingWithCommonRD, ObservableResource):
                 if search_key in ("if", "rt"):
 
                     def matches(x, original_matches=matches):
-                        return any(original_matches(v) for v in x.split())
+                        # (a valueless rt / if attribute lists no values)
+                        return x is not None and any(
+                            original_matches(v) for v in x.split()
+                        )
 
                 # Lists rather than generators, see EndpointLookupInterface
                 if search_key == "href":
